@@ -181,8 +181,7 @@ def run(ctx, chk):
     chk.assume("translation only maps dictionary keys; an untranslated token makes the locale inapplicable (so S-A is a necessary condition)")
 
 
-def code_rules(ctx, chk):
-    rule = "C05.R5"
+def code_rules(ctx, chk, rule="C05.R5"):
     ix = ctx.ix
     n = 0
     for key in ("dateparser.languages.dictionary:Dictionary._construct_split_regex",
